@@ -151,16 +151,24 @@ def tick : P Tick := do
   | "TI" => pure .idleCheck
   | _ => fun _ => none
 
-/-- policy oracle table: entries `(step, elapsed, failures, exc, delay?)` -/
+/-- policy oracle table: entries `(step, elapsed, failures, exc, decision)`;
+decision = a delay, `_` (give up) or `X` (the policy raised) -/
+def polDecision : P PolDecision := fun ts =>
+  match ts with
+  | "_" :: r => some (.stop, r)
+  | "X" :: r => some (.raise, r)
+  | t :: r => (t.toNat?).map (fun n => (.retry n, r))
+  | [] => none
+
 def policy : P Policy := do
   match ← tok with
   | "P" =>
     let es ← counted (do
-      let s ← nat; let el ← int; let f ← nat; let x ← nat; let d ← optNat; pure (s, el, f, x, d))
+      let s ← nat; let el ← int; let f ← nat; let x ← nat; let d ← polDecision; pure (s, el, f, x, d))
     pure (fun s el f x =>
       match es.find? (fun e => e.1 == s && e.2.1 == el && e.2.2.1 == f && e.2.2.2.1 == x) with
       | some e => e.2.2.2.2
-      | none => none)
+      | none => .stop)
   | _ => fun _ => none
 
 /-! ### printing (canonical: dict-like things sorted by key) -/
@@ -294,10 +302,10 @@ def step (d : DState) (line : String) : DState × String :=
     | _ => (d, "bad-op")
   | "ext" :: ts =>
     match tick ts with
-    | some (t, []) => let r := d.run.step d.cfg (fun _ _ _ _ => none) (.external t); ({ d with run := r }, "ok")
+    | some (t, []) => let r := d.run.step d.cfg (fun _ _ _ _ => .stop) (.external t); ({ d with run := r }, "ok")
     | _ => (d, "bad-op")
-  | ["pull"] => let r := d.run.step d.cfg (fun _ _ _ _ => none) .pull; ({ d with run := r }, sRunner r)
-  | ["timer"] => let r := d.run.step d.cfg (fun _ _ _ _ => none) .timer; ({ d with run := r }, sRunner r)
+  | ["pull"] => let r := d.run.step d.cfg (fun _ _ _ _ => .stop) .pull; ({ d with run := r }, sRunner r)
+  | ["timer"] => let r := d.run.step d.cfg (fun _ _ _ _ => .stop) .timer; ({ d with run := r }, sRunner r)
   | "setnow" :: ts =>
     match int ts with
     | some (t, []) =>
@@ -307,7 +315,7 @@ def step (d : DState) (line : String) : DState × String :=
   | "wdone" :: ts =>
     match (do let s ← nat; let w ← nat; let rs ← counted res; pure (s, w, rs)) ts with
     | some ((s, w, rs), []) =>
-      let r := d.run.step d.cfg (fun _ _ _ _ => none) (.workerDone s w rs)
+      let r := d.run.step d.cfg (fun _ _ _ _ => .stop) (.workerDone s w rs)
       ({ d with run := r }, sRunner r)
     | _ => (d, "bad-op")
   | "drain" :: ts =>
@@ -319,7 +327,7 @@ def step (d : DState) (line : String) : DState × String :=
   | "swrite" :: ts =>
     match ev ts with
     | some (e, []) =>
-      let r := d.run.step d.cfg (fun _ _ _ _ => none) (.stepWrite (.event e)); ({ d with run := r }, "ok")
+      let r := d.run.step d.cfg (fun _ _ _ _ => .stop) (.stepWrite (.event e)); ({ d with run := r }, "ok")
     | _ => (d, "bad-op")
   | "rstep" :: ts =>
     -- rstep <now> <policy> <hint>: set the clock; if the buffer is empty apply the
